@@ -59,6 +59,9 @@ func runC17(p *Prog, r *Report) {
 	r.Describe("C17.1/E5", "message ownership typestate: double release, use after release/hand-off, release on an error return of Send/SendMsg, MakeUnique result discarded, retained message handed off without Clone, released message returned")
 	e5Obligations(p, r, "C17.1/E5")
 	r.Floor("C17.1/E5", "e5.functions_touching_messages", 100)
+	r.Describe("C17.5/send-contract", "every implementation of Send/SendMsg(*Message) error consumes the message exactly when it returns nil (the contract every caller relies on through the interface)")
+	e5SendContracts(p, r, "C17.5/send-contract", nil)
+	r.Floor("C17.5/send-contract", "e5.send_implementations", 30)
 	r.Describe("C17.3/shared-queue", "a message received from a queue that is fed with Clone'd (shared) messages is made unique before it is returned to the application")
 	e5SharedQueues(p, r, "C17.3/shared-queue")
 	r.Describe("C17.4/no-write-through", "transport Send implementations never write through the message they send (shared messages are sent concurrently by several pipes)")
